@@ -996,6 +996,7 @@ func (p *H265Payloader) Payload(mtu uint16, payload []byte) [][]byte { //nolint:
 			maxFUPayloadSize := int(mtu) - fuPacketHeaderSize
 
 			naluHeader := newH265NALUHeader(nalu[0], nalu[1])
+			wholeNALU := nalu
 
 			// the nalu header is omitted from the fragmentation packet payload
 			nalu = nalu[h265NaluHeaderSize:]
@@ -1006,6 +1007,15 @@ func (p *H265Payloader) Payload(mtu uint16, payload []byte) [][]byte { //nolint:
 
 			// flush any buffered aggregation packets.
 			flushBufferedNals()
+
+			if len(nalu) <= maxFUPayloadSize {
+				// A NAL unit must not be transmitted in one FU (RFC 7798 4.4.3): a unit whose
+				// payload would fill a single fragment fits a single NAL unit packet.
+				bufferedNALUs = append(bufferedNALUs, wholeNALU)
+				flushBufferedNals()
+
+				return
+			}
 
 			fullNALUSize := len(nalu)
 			for len(nalu) > 0 {
